@@ -105,6 +105,10 @@ EXPLANATION += (
     ' Round 16: the truncation helper addresses rows only through its leaf -> row tables (R-PROV/rows-through-row-tables).'
 )
 
+EXPLANATION += (
+    ' Round 17: the copy helpers the merge reaches (utils.h5_utils) are judged with the window rules, comprehensions included.'
+)
+
 RULE_TEXT = (
     "one obligation per key of each producer, per required read, per "
     "merge loop, per statistic, per use of the row index")
